@@ -144,4 +144,39 @@ CHECKS = {
                 "bytes and mtime before/after) are validated.",
         "note": "Exploration over a finite corpus + seeded variants; --diff's exit status is left open (undocumented).",
     },
+    "C11": {
+        "level": "exploration",
+        "technique": "TLA+-generated inputs (Layout class strings with exact lex verdict, Core programs) + seeded mutation operators; every "
+                     "front-end stage monitored in a watchdog with catch_unwind; diagnostics checked for well-formedness and rendered",
+        "text": "Totality is a statement about all UTF-8 inputs; the specification structures the walk (all layouts up to the bound with an "
+                "exact oracle for the lexer's verdict, valid generated programs as mutation seeds) and the harness monitors lex, parse, "
+                "check, format and emit on every input (termination, no panic, non-empty diagnostics, spans in range / on scalar "
+                "boundaries / ordered, terminal and editor rendering do not fail).",
+        "note": "Exploration level by design (DESIGN §5 C11): sampling of the input space; atom-string enumeration is outside the model.",
+    },
+    "C15": {
+        "level": "model_checking",
+        "technique": "TLA+ spec Manifest (prepare_project as Collect/Scan/AddCrates/Emit/Write over feature-placement programs); TLC "
+                     "exhaustive on the demanded and as-originally-written variants; every case rendered and generated in process and by "
+                     "the real CLI with a stub cargo; Cargo.toml parsed (cross-checked with cargo metadata), generated Rust scanned for crate roots",
+        "text": "Manifest.tla models which crates a program needs given where each feature construct sits (entry file or imported module) "
+                "and what the generator must declare (declared = expected = referenced, pinned versions/paths, names, refusal of unknown "
+                "crates); TLC checks nine invariants on all feature-placement programs and confirms the regression counterexamples on the "
+                "as-written variant. Every TLC case is rendered into a real project and generated both in process and through the real "
+                "CLI (a stub cargo records whether cargo was reached).",
+        "note": "Eleven constructs with one rendering each; mixed placements up to 3 features (quick 2); crate roots by lexical scan of the "
+                "generated Rust; the stub cargo stands in for cargo (no network).",
+    },
+    "C12": {
+        "level": "exploration",
+        "technique": "TLA+ spec Determinism (every unordered iteration as a nondeterministic draw, order-source table; TLC names the "
+                     "components at risk); K fresh-process compilations through 5 paths in different directories, filesystems and "
+                     "environments, validated by TLC against DeterminismTrace",
+        "text": "The model says which output components can depend on hash / readdir order (and that sorting the sites removes the "
+                "dependence); the binding compiles each program K times in fresh processes (fresh RandomState), different working "
+                "directories and perturbed environments through --check, --emit-rust, fmt --diff, build (stub cargo) and in-process "
+                "generation, and TLC validates that all observations are byte-equal and that recorded orders are the derived ones.",
+        "note": "Detection is probabilistic in K (a two-way order dependence is missed with probability 2^-(K-1); quick K=6, thorough K=16); "
+                "the flow table is a transcription made by reading the code.",
+    },
 }
